@@ -319,4 +319,104 @@ theorem ret_schemaDocLoop (m : Nat) : ∀ (n : Nat) (doc : SchemaDoc), DocAll It
         Ret.ite (fun _ => Ret.seq fun _ => Ret.bind (ret_typeSystemExtension m doc hdoc) fun doc' hdoc' => ih doc' hdoc')
           (fun _ => Ret.of_dead_bind unexpectedError_dead)
 
+/-! ### every tree the schema parser returns is printable -/
+
+theorem many_mem {α : Type} {P : α → List Token → Prop} {xs : List α} {used : List Token} (h : Many P xs used) :
+    ∀ x ∈ xs, ∃ u, P x u := by
+  induction h with
+  | nil => intro _ h; cases h
+  | @cons x xs u us hx _ ih =>
+    intro y hy
+    rcases List.mem_cons.1 hy with rfl | hy
+    · exact ⟨u, hx⟩
+    · exact ih y hy
+
+theorem itemOK_of_w {it : SItem} (h : ItemOKw it) (hs : ∀ s, it = .schema s → s.opTypes ≠ []) : ItemOK it := by
+  cases it with
+  | schema s => exact ⟨h.1, hs s rfl, h.2⟩
+  | schemaExt s => exact h
+  | directive d => exact h
+  | definition d => exact h
+  | extension d => exact h
+
+theorem itemOK_setBI (b : Bool) {it : SItem} (h : ItemOK it) : ItemOK (it.setBI b) := by
+  cases it with
+  | schema s => exact h
+  | schemaExt s => exact h
+  | directive d => exact h
+  | definition d => exact h
+  | extension d => exact h
+
+theorem runSchema_printable (src : Nat) (inp : Bytes) (d0 : SchemaDoc) (h : Result.ofRun (runSchema 0 src inp) = .ok d0) :
+    PrintableSchema d0 := by
+  obtain ⟨hoof, herr, hdoc⟩ := ofRun_ok.1 h
+  have hlive : dead (runSchema 0 src inp).2 = false := by simp [dead, hoof, herr]
+  obtain ⟨raw, eof, hlex, heof, hraw, hsorted, hcount, r, huniq⟩ :=
+    run_to_eof (spec_parseSchemaDocument (fuelFor inp)) src inp hlive
+      (fun _ _ _ ⟨_, used, h1, h2, h3, _⟩ => ⟨used, h1, h2, h3⟩)
+  obtain ⟨items, used, hate, hpk, hk, hd, hm⟩ := r
+  have hfilter := huniq used hate
+  have hd0 : d0 = items.foldl SchemaDoc.add SchemaDoc.empty := by rw [← hdoc]; exact hd
+  have hused_sorted : used.Pairwise (fun a b => a.start < b.start) := by
+    rw [← hfilter]; exact hsorted.sublist List.filter_sublist
+  obtain ⟨_, k2⟩ := many_keys_gen (key := fun it => (sItem it).1) hm (fun x u p => p.1) hused_sorted
+  -- the token-independent invariants
+  have hw : DocAll ItemOKw d0 := by
+    rw [← hdoc]
+    have : Ret (parseSchemaDocument (fuelFor inp)) (DocAll ItemOKw) := by
+      unfold parseSchemaDocument
+      exact Ret.seq fun _ => ret_schemaDocLoop _ _ _ (DocAll.empty _)
+    exact this (PState.init src inp) hlive
+  -- schema definitions list their root operation types
+  have hitemsw : ∀ it ∈ items, ItemOKw it := by
+    rw [hd0] at hw
+    exact ((DocAll.foldl items SchemaDoc.empty).1 hw).2
+  have hitems : ∀ it ∈ items, ItemOK it := by
+    intro it hit
+    refine itemOK_of_w (hitemsw it hit) ?_
+    rintro s rfl
+    obtain ⟨u, _, hwf⟩ := many_mem hm _ hit
+    exact (hwf trivial).2.2.1
+  have hall : DocAll ItemOK d0 := by
+    rw [hd0]; exact (DocAll.foldl items SchemaDoc.empty).2 ⟨DocAll.empty _, hitems⟩
+  refine ⟨hall, ?_⟩
+  rw [hd0, foldl_add_lists]
+  simp only [SchemaDoc.empty, List.nil_append]
+  refine ⟨?_, ?_, ?_, ?_, ?_⟩ <;>
+    refine List.Pairwise.filterMap _ ?_ k2 <;>
+    intro a a' hlt b hb b' hb' <;>
+    cases a <;> cases a' <;> simp_all [getSchema, getSchemaExt, getDirective, getDefinition, getExtension, sItem] <;> omega
+
+theorem printable_setBuiltIn (b : Bool) {d : SchemaDoc} (h : PrintableSchema d) : PrintableSchema (setBuiltIn b d) := by
+  obtain ⟨⟨h1, h2, h3, h4, h5⟩, s1, s2, s3, s4, s5⟩ := h
+  refine ⟨⟨h1, h2, h3, ?_, ?_⟩, s1, s2, s3, ?_, ?_⟩
+  · intro x hx
+    simp only [setBuiltIn, List.mem_map] at hx
+    obtain ⟨y, hy, rfl⟩ := hx
+    exact h4 y hy
+  · intro x hx
+    simp only [setBuiltIn, List.mem_map] at hx
+    obtain ⟨y, hy, rfl⟩ := hx
+    exact h5 y hy
+  · simp only [setBuiltIn, List.pairwise_map]; exact s4
+  · simp only [setBuiltIn, List.pairwise_map]; exact s5
+
+/-- every tree the schema parser returns is printable -/
+theorem parseSchemaSrc_printable (src : Nat) (b : Bool) (inp : Bytes) (d : SchemaDoc) (h : parseSchemaSrc 0 src b inp = .ok d) :
+    PrintableSchema d := by
+  obtain ⟨d0, h0, rfl⟩ := parseSchemaSrc_ok.1 h
+  exact printable_setBuiltIn b (runSchema_printable src inp d0 h0)
+
+theorem setBuiltIn_idem (b : Bool) (d : SchemaDoc) : setBuiltIn b (setBuiltIn b d) = setBuiltIn b d := by
+  simp [setBuiltIn, List.map_map, Function.comp_def]
+
+/-- **parse ∘ print ∘ parse = parse** for type-system documents (up to positions) -/
+theorem parseSchemaSrc_print_parse (src src' : Nat) (b : Bool) (inp inp' : Bytes) (d : SchemaDoc)
+    (h : parseSchemaSrc 0 src b inp = .ok d) (htok : tokensOf inp' = some (printSchema d)) :
+    ∃ d', parseSchemaSrc 0 src' b inp' = .ok d' ∧ d'.erasePos = d.erasePos := by
+  obtain ⟨d', h1, h2⟩ := parseSchemaSrc_print d (parseSchemaSrc_printable src b inp d h) src' b inp' htok
+  obtain ⟨d0, _, rfl⟩ := parseSchemaSrc_ok.1 h
+  rw [setBuiltIn_idem] at h2
+  exact ⟨d', h1, h2⟩
+
 end Gql.Parser
